@@ -59,6 +59,7 @@ THEOREMS = [
     # the table as stored (text as UTF-8 bytes, raw / converted rows as in the code): the machine the driver runs
     "Nix.C16.C16_storage_simulates",
     "Nix.C16.C16_storage_reads",
+    "Nix.C16.C16_rollbacks_restore",
     "Nix.C16.C16_text_roundtrip",
     "Nix.C16.C16_getitem_is_table",
     # shape of the source (Generated/FrameShape.lean, regenerated on every run)
@@ -70,8 +71,10 @@ THEOREMS = [
 ASSUMPTIONS = [
     "cells are Python int / finite float / bool / str; floats are compared as the exact rationals they denote",
     "a non-string cell offered to a text column by append_rows / append_column / write_column is refused by h5py "
-    "only while the data are being stored; the code then rolls back (fixes ad11a3a, e4fbac6, 2f1693f) and the model "
-    "refuses it up front: same observable outcome (error class, table unchanged)",
+    "only while the data are being stored; the code then rolls back (fixes ad11a3a, e4fbac6, 2f1693f): modelled "
+    "effect by effect in Pure/FrameFx.lean and proved to end in the state of the atomic model "
+    "(C16_rollbacks_restore); at creation and in write_rows / write_cell the model still refuses such a cell up front "
+    "(same observable outcome: error class, table unchanged)",
     "numeric-literal strings offered to numeric columns, integers beyond 2^53 offered to float columns and NaN/inf "
     "are outside the modelled domain (a number an integer column cannot hold is inside it: refused in every spelling "
     "since fix ac50c5b)",
